@@ -30,9 +30,9 @@ SHIELD = {"engines": [chain("shield", 128, 1280, ops=160, tops=240)],
                           "only the bond denomination is used for shield, fees and losses", "genesis LastUpdateTime is the chain's start time (DefaultGenesisState stamps the wall clock)"]}
 
 PROPS = {
-    "C02": dict(SHIELD, lean=["Shentu.Props.C02", "Shentu.Props.ShieldTie"]),
+    "C02": dict(SHIELD, lean=["Shentu.Props.C02", "Shentu.Props.C04b", "Shentu.Props.ShieldTie"], engines=SHIELD["engines"] + [chain("payout", 64, 640, ops=120, tops=200)]),
     "C03": dict(SHIELD, lean=["Shentu.Props.C03a", "Shentu.Props.C03b", "Shentu.Props.ShieldTie"]),
-    "C04": dict(SHIELD, lean=["Shentu.Props.C04", "Shentu.Props.ShieldTie"],
+    "C04": dict(SHIELD, lean=["Shentu.Props.C04", "Shentu.Props.C04b", "Shentu.Props.ShieldTie"],
                 engines=SHIELD["engines"] + [chain("payout", 64, 640, ops=120, tops=200)],
                 assumptions=SHIELD["assumptions"] + [
         "'taken from its bonded or unbonding stake': in the shield model the coins move from the staking pools in one step; how the code takes them (split, pro-rata loop, shares rounded up, unbonding entries) is Model/Payout.lean, run against the real keeper's MakePayoutByProviderDelegations by the engine 'payout' on states reached by shield histories, after random slashes and undelegations in a discarded cache context"]),
